@@ -498,3 +498,37 @@ package badger
 //@   assert[forward-at-read-ts] before call KeyWithTs#1 : !it.opt.Reverse && arg1 == it.txn.readTs
 //@   assert[reverse-at-zero] before call KeyWithTs#2 : it.opt.Reverse && arg1 == 0
 //@   assert[seek-encoded] before call Seek : (called(KeyWithTs#1) ==> arg1 == ret(KeyWithTs#1)) && (called(KeyWithTs#2) ==> arg1 == ret(KeyWithTs#2)) && (called(KeyWithTs#1) || called(KeyWithTs#2))
+
+// ---- MANIFEST replay (C17) ----
+
+// levelsOK: every table's level exists (what keeps the index into Levels in range).
+//@ spec levelsOK(m *Manifest) bool = forall id uint64 :: id in m.Tables ==> int(m.Tables[id].Level) < len(m.Levels)
+//@ spec levelMapsOK(m *Manifest) bool = forall l int :: 0 <= l && l < len(m.Levels) ==> m.Levels[l].Tables != nil
+
+// One change, applied to the table map: CREATE of an unknown id adds exactly that table with
+// its level, key id and compression; CREATE of a known id is an error and changes nothing;
+// DELETE removes the id (DELETE of an unknown id leaves the table map as it is); an unknown
+// operation is an error and changes nothing. All other tables stay as they were.
+//@ func applyManifestChange
+//@   props C17
+//@   requires build != nil && tc != nil && build.Tables != nil && levelsOK(build) && levelMapsOK(build)
+//@   domain tc.Level < 256
+//@   ensures[create-known] tc.Op == pb.ManifestChange_CREATE && old(tc.Id in build.Tables) ==> result != nil && unchanged(build.Tables) && build.Creations == old(build.Creations) && build.Deletions == old(build.Deletions)
+//@   ensures[create-new] tc.Op == pb.ManifestChange_CREATE && !old(tc.Id in build.Tables) ==> result == nil && tc.Id in build.Tables && build.Tables[tc.Id].Level == uint8(tc.Level) && build.Tables[tc.Id].KeyID == tc.KeyId && build.Tables[tc.Id].Compression == options.CompressionType(tc.Compression) && build.Creations == old(build.Creations) + 1 && build.Deletions == old(build.Deletions)
+//@   ensures[delete] tc.Op == pb.ManifestChange_DELETE ==> result == nil && !(tc.Id in build.Tables) && build.Deletions == old(build.Deletions) + 1 && build.Creations == old(build.Creations)
+//@   ensures[bad-op] tc.Op != pb.ManifestChange_CREATE && tc.Op != pb.ManifestChange_DELETE ==> result != nil && unchanged(build.Tables) && build.Creations == old(build.Creations) && build.Deletions == old(build.Deletions)
+//@   ensures[others-untouched] forall id uint64 :: id != tc.Id ==> (id in build.Tables <==> old(id in build.Tables)) && build.Tables[id] == old(build.Tables[id])
+//@   ensures[levels-ok] levelsOK(build) && levelMapsOK(build) && len(build.Levels) >= old(len(build.Levels))
+//@   assigns inferred
+//@   loop 1 invariant[grow] len(build.Levels) >= old(len(build.Levels)) && levelMapsOK(build) && tc.Id in build.Tables && build.Tables[tc.Id].Level == uint8(tc.Level) && build.Tables[tc.Id].KeyID == tc.KeyId && build.Tables[tc.Id].Compression == options.CompressionType(tc.Compression)
+//@   loop 1 invariant[others] forall id uint64 :: id != tc.Id ==> (id in build.Tables <==> old(id in build.Tables)) && build.Tables[id] == old(build.Tables[id])
+//@   loop 1 invariant[levels] forall id uint64 :: id != tc.Id && id in build.Tables ==> int(build.Tables[id].Level) < len(build.Levels)
+//@   loop 1 invariant[counters] build.Creations == old(build.Creations) && build.Deletions == old(build.Deletions)
+//@   loop 2 invariant[range] rangeindex < len(build.Levels)
+//@   loop 2 invariant[tables] unchanged(build.Tables) && build.Creations == old(build.Creations) && build.Deletions == old(build.Deletions) && build.Levels == old(build.Levels) && levelMapsOK(build)
+
+//@ func applyChangeSet
+//@   props C17
+//@   light
+//@   assert[in-order] before call applyManifestChange : arg0 == build && arg1 == changeSet.Changes[rangeindex + 1]
+//@   assert[stops-at-first-error] before return : result != nil ==> result == ret(applyManifestChange#1)
